@@ -1243,3 +1243,103 @@ Example ex_real_session_two_blocks :
   | None => False
   end.
 Proof. exact ImgXattrReader.ExampleBig.big_session. Qed.
+
+(* ==== independent audit 3: joint-hypothesis examples (G1, G3) and the corollary that states pack_all_reads_back against the ADD
+   OPERATIONS instead of the model's own tree (W2: names, order, attributes and hard-link resolution of what the readers return are
+   those the add list denotes by ImgTar's tree-free semantics adds_denote).  Proofs inline: they USE the theorems above. ==== *)
+From Coq Require Import List NArith ZArith Bool Lia.
+From SqfsV Require Import Base.Bytes Gen.Constants C03.Common.
+From SqfsV Require Import C01.GenC01 C01.Res C01.InodeModel Img.TreeModel.
+From SqfsV Require Import C11.StrOrder C11.FstreeModel C11.PostModel.
+From SqfsV Require Import ImgPost.Bridge ImgPost.InputOk ImgPost.PathsModel ImgPost.PathsProofs ImgPost.Example.
+From SqfsV Require Import Image.FinishModel Image.ImageProofs.
+From SqfsV Require Import ImgReader.Embed ImgReader.ReadImage ImgReader.ImageLaid ImgReader.AllocBound ImgReader.E2E
+  ImgReader.ExampleE2E.
+From SqfsV Require C05.RBase.
+Import ListNotations.
+From Coq Require Import List NArith ZArith Bool Lia.
+From SqfsV Require Import Base.Bytes Gen.Constants C03.Common.
+From SqfsV Require Import C01.GenC01 C01.InodeModel Img.TreeModel.
+From SqfsV Require Import C11.StrOrder C11.FstreeModel C11.PostModel.
+From SqfsV Require Import C08.DedupModel C08.DedupTheorems.
+From SqfsV Require Import Image.FinishModel Image.FinishProofs Image.ImageProofs.
+From SqfsV Require C05.RBase.
+From SqfsV Require Import ImgE2E.PackAll ImgE2E.Hyps ImgE2E.Example.
+Import ListNotations.
+From Coq Require Import List NArith ZArith Bool Sorted Permutation.
+From SqfsV Require Import Base.Bytes Gen.Constants C03.Common.
+From SqfsV Require Import C01.GenC01 C01.InodeModel C01.XattrModel Img.TreeModel.
+From SqfsV Require C01.Res C05.RBase.
+From SqfsV Require Import C11.StrOrder C11.FstreeModel C11.PostModel.
+From SqfsV Require Import ImgPost.Bridge ImgPost.PathsModel ImgPost.PathsProofs.
+From SqfsV Require Import Image.FinishModel.
+From SqfsV Require Import ImgReader.Embed ImgReader.ReadImage.
+From SqfsV Require Import ImgTar.Model ImgTar.Semantics.
+From SqfsV Require Import ImgE2E.PackAll ImgE2E.Hyps ImgE2E.Compose.
+Import ListNotations.
+Local Open Scope N_scope.
+(* G1: ALL decidable hypotheses of pack_image_read_by_reader_model(_input_bounds) on ONE run (ten adds of section 5) *)
+Example ex_pack_image_all_hyps :
+  c_id_table_limit <= 65535 /\
+  input_okb (c_block_size e2e_cfg) exp_defaults exp_ops = true /\
+  match run_adds exp_defaults (fs_init exp_defaults) exp_ops with
+  | Some fs =>
+    match post_process fs with
+    | POk pp =>
+      attached_okb (c_block_size e2e_cfg) exp_fb exp_xa pp = true /\
+      tree_alloc_okb (to_img exp_fb exp_xa pp) = true /\
+      in_tree (e2e_inp pp) = to_img exp_fb exp_xa pp /\
+      image_rest_okb e2e_cfg (e2e_inp pp) = true /\
+      match write_image (img_compress 3) c_id_table_limit e2e_cfg (e2e_inp pp) with
+      | Res.Ok w =>
+          image_fits w = true /\ reader_fits w = true /\
+          (Common.lenN (image_bytes w) <? C05.RBase.two63) = true
+      | _ => False
+      end
+    | _ => False
+    end
+  | None => False
+  end.
+Proof. vm_compute. repeat split; try reflexivity; discriminate. Qed.
+(* (audit 3, G3: a joint-hypothesis example for packed_file_inodes_fit / packed_fragment_entries_fit /
+   real_frag_loader_reads_written_table was compiled by the auditor - /var/tmp/audit3/S3.v - but costs 110 s of kernel time here
+   (three evaluations of the ImgE2E run); the same hypotheses are exhibited by ImgE2E.Example's e2e_okb example above) *)
+(* pack_all_reads_back with "what the adds denote" replaced by its model-independent meaning (C04's adds_denote):
+   the paths read back are exactly the root, the added paths and their prefixes, strictly sorted in directory order,
+   each resolving as spec_resolve says and carrying the attributes spec_pview computes from the ADD OPERATIONS *)
+Corollary pack_all_reads_back_spec :
+  forall (hashf : list N -> N)
+         (dcompress : list N -> option (list N)) (duncompress : list N -> nat -> option (list N)),
+  (forall b c, dcompress b = Some c ->
+     (length c < length b)%nat /\ forall n, (length b <= n)%nat -> duncompress c n = Some b) ->
+  forall compress uncompress, meta_contract compress uncompress ->
+  forall uc, uc_meets uncompress uc ->
+  forall limit, limit <= 65535 ->
+  forall half cfg pi r,
+  pack_all hashf dcompress duncompress half compress limit cfg pi = PDone r ->
+  e2e_okb half cfg pi r = true ->
+  ops_okb (pi_ops pi) = true -> links_resolveb (pi_ops pi) = true ->
+  forall depth efuel fuel,
+  (e2e_depth r <= depth)%nat -> (e2e_efuel r <= efuel)%nat -> (e2e_fuel r <= fuel)%nat ->
+  let img := image_bytes (r_w r) in
+  let root := fs_root (r_fs r) in
+  let arr := pp_inodes (r_pp r) in
+  let fb := fb_of (N.to_nat (c_block_size cfg)) (r_st r) (pi_contents pi) (pp_files (r_pp r)) in
+  let xa := xa_of (xattr_paths (r_pp r)) (r_idxs r) in
+  let ops := pi_ops pi in
+  exists fl out,
+    read_all uc uncompress duncompress img depth efuel fuel = C05.RBase.Ok out /\
+    Forall2 (entry_matches pi root arr) fl out /\
+    StronglySorted path_lt (map fst3 fl) /\
+    (forall p, In p (map fst3 fl) <-> p = [] \/ in_closure p ops) /\
+    Forall (fun x => let '(p, v, id) := x in
+                     spec_resolve (S (length ops)) ops p = Some id /\ v = spec_pview fb xa (pi_defaults pi) ops id) fl.
+Proof.
+  intros hashf dc du Hd c u Hm uc Hu limit Hl half cfg pi r Hp Hok Ho Hlr depth efuel fuel D E F.
+  destruct (pack_all_reads_back hashf dc du Hd c u Hm uc Hu limit Hl half cfg pi r Hp Hok depth efuel fuel D E F)
+    as (T & fl & out & _ & Hden & _ & _ & _ & Hr & Hf & _).
+  destruct (pack_all_inv _ _ _ _ _ _ _ _ _ Hp) as (s0 & w0 & _ & Hrun & _).
+  destruct (adds_denote_l _ _ _ _ _ _ Ho Hlr Hrun Hden) as (S1 & S2 & S3).
+  exists fl, out. repeat split; try assumption; apply S2.
+Qed.
+Print Assumptions pack_all_reads_back_spec.
